@@ -68,6 +68,16 @@ fn class_name(c: u8) -> &'static str {
     }
 }
 
+fn show(r: &Rec) -> String {
+    if r.class == 0 {
+        format!("Ok, decoder position {}, value digest {:016x}", r.pos, r.digest)
+    } else if r.class < 100 {
+        format!("{}, decoder position {}, Error::position() = {}", class_name(r.class), r.pos, if r.digest == 0 { "None".to_string() } else { format!("Some({})", r.digest - 1) })
+    } else {
+        format!("{}, decoder position {}", class_name(r.class), r.pos)
+    }
+}
+
 /// May the record of `cfg` differ from the std+half record in this way?
 fn permitted(cfg: &str, op: &str, input: Option<&[u8]>, base: &Rec, rec: &Rec) -> Option<&'static str> {
     let alloc = !cfg.starts_with("none");
@@ -194,7 +204,7 @@ pub fn run(r: &Report) {
                     sub,
                     None,
                     json!({"configuration": cfg, "op": op, "input_hex": input.map(hex), "case_index": i}),
-                    format!("std+half: {} position {} digest {:016x}; {}: {} position {} digest {:016x}", class_name(a.class), a.pos, a.digest, cfg, class_name(b.class), b.pos, b.digest),
+                    format!("std+half: {}; {}: {}", show(a), cfg, show(b)),
                 );
             }
         }
@@ -215,7 +225,7 @@ pub fn run(r: &Report) {
     r.sample(sub, json!({"op": "skip()", "input_hex": "819fff", "std+half": "Ok position 3", "none": "Err(message) (documented: requires alloc)"}));
     r.sample(sub, json!({"op": "f32()", "input_hex": "f93c00", "std+half": "Ok 1.0", "std": "Err(type mismatch) (documented: requires half)"}));
     r.assume("only x86_64-unknown-linux-gnu is installed: the 32-bit pointer-width and atomic32 branches cannot be built here");
-    r.assume("error message text and reported positions inside errors are not part of the transcript; the bridge's error type exposes no class, so only Ok / Err is compared for serde operations");
+    r.assume("error message text is not part of the transcript (it is documented to differ); the bridge's error type exposes neither class nor position, so only Ok / Err and the decoder position are compared for serde operations");
 }
 
 /// The no-alloc part of C06: run the skip check inside the probe builds without `alloc`.
